@@ -238,6 +238,16 @@ impl TryFrom<OpenFile> for Stdio {
         // fail (e.g. under descriptor exhaustion), so the conversion is fallible and the error is
         // surfaced to the caller rather than silently degrading the child's streams.
         match open_file {
+            // N.B. Not `Stdio::inherit()`: that hands the child whatever *this process* has in
+            // the slot being filled, so `cmd 2>&1` (stderr := the shell's stdout) would still
+            // write to the shell's stderr. Hand over the specific stream that was asked for.
+            #[cfg(unix)]
+            OpenFile::Stdin(f) => Ok(std::os::fd::AsFd::as_fd(&f).try_clone_to_owned()?.into()),
+            #[cfg(unix)]
+            OpenFile::Stdout(f) => Ok(std::os::fd::AsFd::as_fd(&f).try_clone_to_owned()?.into()),
+            #[cfg(unix)]
+            OpenFile::Stderr(f) => Ok(std::os::fd::AsFd::as_fd(&f).try_clone_to_owned()?.into()),
+            #[cfg(not(unix))]
             OpenFile::Stdin(_) | OpenFile::Stdout(_) | OpenFile::Stderr(_) => Ok(Self::inherit()),
             OpenFile::File(f) => Ok(f.try_clone()?.into()),
             OpenFile::PipeReader(r) => Ok(r.try_clone()?.into()),
